@@ -394,9 +394,12 @@ def check_trace(ctx: core.Ctx, wl: dict[str, Any], res: dict[str, Any], threaded
     expect: list[tuple[str, str, list[Any], list[str]]] = []   # (kind, name, events, expected verdict sets)
     for name, es in sorted(guards.items()):
         args, exp = [], []
+        foreign = 0
         for (_g, _n, kind, owner, tok, r, actor) in es:
             args.append(f"{kind}:{actor}:{tok}")
             if owner != actor:
+                foreign += 1
+            if owner != actor and foreign <= 3:
                 ctx.disagree(f"trace-guard-{tag}", {"function": name, "event": kind, "thread": actor}, f"list of key {owner}",
                              "the acting thread's own list")
             exp.append({"c": "R" if r else "P", "p": "+", "x": "!" if r == -1 else "="}[kind])
